@@ -435,8 +435,11 @@ def graph_case(draw, kinds=("conserved", "digraph", "perturbed"), nmax=9, with_s
                schemes=("subtract", "bottleneck"), wkinds=None):
     kind = draw(st.sampled_from(kinds))
     n = draw(st.sampled_from([k for k in (3, 4, 4, 5, 5, 6, 6, 7, 7, 8, 9) if k <= nmax]))
-    dtype = draw(st.sampled_from(["float64", "float64", "float64", "float32", "int64"]))
-    wkind = "int" if dtype == "int64" else draw(st.sampled_from(
+    # (one case in nine or so holds an integer-valued flux - counts of reactive trajectories - in a narrow integer type)
+    dtype = draw(st.sampled_from(["float64", "float64", "float64", "float64", "float32", "float32", "int64", "int64",
+                                  "int16", "uint8", "int32"]))
+    narrow = dtype in ("int16", "uint8", "int32")
+    wkind = "int" if dtype == "int64" or narrow else draw(st.sampled_from(
         ["int", "dyadic"] if dtype == "float32" else ["int", "dyadic", "float", "float"]))
     if wkinds:
         wkind = draw(st.sampled_from(list(wkinds)))
@@ -450,6 +453,15 @@ def graph_case(draw, kinds=("conserved", "digraph", "perturbed"), nmax=9, with_s
                 j = draw(st.integers(0, n - 1))
                 if i != j:
                     F[i][j] = F[i][j] + _weight(draw, wkind)
+    if narrow:
+        # every single flux fits the type comfortably; sums of a few of them (the outflow of the sources) do not
+        top = {"uint8": 120, "int16": 30000, "int32": 2 ** 30}[dtype]
+        m = max(max(row) for row in F)
+        if m > 0 and all(float(v) == int(v) for row in F for v in row):
+            k = max(1, top // int(m))
+            F = [[int(v) * k for v in row] for row in F]
+        else:
+            dtype = "int64"
     scale_exp = 0 if dtype != "float64" else draw(st.sampled_from([0, 0, 0, -30, -20, -40, 20]))
     case = {"kind": kind, "wkind": wkind, "F": F, "sources": sources, "sinks": sinks, "dtype": dtype, "scale_exp": scale_exp,
             "layout": draw(st.sampled_from(["C", "C", "F", "view"])),
